@@ -73,5 +73,25 @@ def run(ctx):
             tail = any(k.startswith("call:") and "map_err" in k for _, k in b.ret_assignments()) and bool(b.calls(step))
             ctx.ob(f"compile_manifest|{step.split('::')[-1].rstrip('$')}-error-propagated", bool(b.try_guards(step)) or tail,
                    f"`{step.rstrip('$')}(..)?` (or tail `.map_err(..)`) present", b.loc())
+    ctx.rule("unit agreement in create_snippet: spans are Unicode-char indices, so the amount subtracted from the annotation indices "
+             "(the characters skipped before the context window) is accumulated from `chars().count()` — a byte length (`str::len`) over-counts "
+             "non-ASCII lines and makes the subtraction underflow")
+    cs = [x for x in F.fns if x.endswith("diagnostic_snippets::create_snippet")]
+    for x in cs[:1]:
+        b = ctx.body(x)
+        acc = []
+        for i in range(b.n):
+            t = b.term(i)
+            if t["k"] == "assert" and t["ak"].startswith("Overflow(Add)"):
+                o_b = {y.rsplit("::", 1)[-1] for y in origin_names(b, t["b"])}
+                o_a = {y.rsplit("::", 1)[-1] for y in origin_names(b, t["a"])}
+                # the accumulation `skipped += <per-line amount>` (left operand is the running sum)
+                if any(y.startswith("bin:Add") or y == "AddWithOverflow" for y in o_a) or "bin:AddWithOverflow" in {z for z in origin_names(b, t["a"])}:
+                    acc.append((i, sorted(o_b)))
+        ctx.ob("create_snippet|skipped-accumulation-found", len(acc) >= 1, f"running-sum additions: {acc}", b.loc())
+        bad = [(i, o) for i, o in acc if not (o == ["count"] or o == ["const:1"] or all(z.startswith("const:") for z in o))]
+        ctx.ob("create_snippet|skipped-counted-in-chars", bool(acc) and not bad,
+               "every per-line amount added to the running count of skipped characters is a chars().count()" if acc and not bad else
+               f"a per-line amount that is not a char count is added to the skipped-characters sum: {bad}", b.loc(bad[0][0]) if bad else b.loc())
     ctx.assume("determinism ('same answer every time') rides on C01's scope; panics inside external crates (annotate-snippets, bech32, hex) and in "
                "the decimal / id parsers of radix-common are not decided by this table")
